@@ -262,7 +262,7 @@ def _parse(res):
     if 'Error: ' in out and not res.violations:
         # evaluation errors etc.
         idx = out.index('Error: ')
-        raise TLCError('TLC error:\n' + out[idx:idx + 3000])
+        raise TLCError('TLC error:\n' + out[idx:idx + 1200])
 
 
 def sany(module, specs_dir=None):
